@@ -73,8 +73,29 @@ ds_ns = dataset(body_ns, dispatch=NS.Q)
 ds_ns.overload("x")(ov_x)
 typed = dataset(body_a, defaults={"a": Option[int]("A", 0)})
 
+
+
+def eff_raises(v):
+    raise ValueError("this effect is switched off and must stay off")
+
+
+def body_q(a=Option("A", 0)):
+    return ("q", a)
+
+
+# state set by method calls BEFORE pickling: per-dataset effects toggle, late effects, late cache, late dispatch
+ds_quiet = dataset(body_q, effects=[eff_raises])
+ds_quiet.disable_effects()
+ds_late = dataset(body_q)
+ds_late.add_effects(eff)
+ds_late.set_dispatch("D")
+ds_late.overload("x")(ov_x)
+ds_late.set_cache(__import__("labrea").cache.NoCache())
+ds_late.disable_effects()
+ds_late.enable_effects()
+
 DISPATCH_KEY = {"ds_ns": "NS.A"}  # (others dispatch on D)
-GRAPHS = {"ds_ns": ds_ns, "ns": NS, "typed": typed, "ds_a": ds_a, "ds_c": ds_c, "ds_main": ds_main, "ds_abstract": ds_abstract, "ds_derived": ds_derived, "expr_root": expr_root}
+GRAPHS = {"ds_quiet": ds_quiet, "ds_late": ds_late, "ds_ns": ds_ns, "ns": NS, "typed": typed, "ds_a": ds_a, "ds_c": ds_c, "ds_main": ds_main, "ds_abstract": ds_abstract, "ds_derived": ds_derived, "expr_root": expr_root}
 
 
 # decorator form (recorded finding: the name of the function now refers to the Dataset)
